@@ -2,6 +2,9 @@
    IncConnNum / DecConnNum) as driven by bfe_server/reverseproxy.go: clusterInvoke (retry loop) and FinishReq,
    for any number of concurrent requests.  Definitions only.
 
+   BfeBackend.SetAvail / setAvail (availability, failNum), SetRestart and a conf reload that keeps a backend (BalanceRR.Update) do
+   not touch connNum: they have no operation here (the harness interleaves them and the counts must not move).
+
    Per request the code keeps request.Trans.Backend (`trans`).  One loop iteration of clusterInvoke is
        BalanceOk b   : bal.Balance succeeded: DecConnNum(old trans) if set, trans := b
        ForwardFinish : a HandleForward filter returned Finish: trans := nil (since commit "fix: clusterInvoke
